@@ -510,6 +510,60 @@ fn dispatch_serde(ty: &str, operands: &[Vec<&str>]) -> Vec<String> {
     }
 }
 
+/// nalgebra ComplexField / RealField methods of the four field-compatible types
+fn field_ops<D>(op: &str, aux: &[&str], operands: &[Vec<&str>]) -> Vec<String>
+where
+    D: nalgebra::RealField + Probe,
+{
+    use nalgebra::{ComplexField as CF, RealField as RF};
+    let a: Vec<D> = operands.iter().map(|t| D::rd(&mut Toks { v: t, i: 0 })).collect();
+    let mut out = vec![];
+    let o = &mut out;
+    macro_rules! consts { ($($n:ident),*) => { match op { $(concat!("rf_", stringify!($n)) => { <D as RF>::$n().wr(o); return out; })* _ => {} } }; }
+    consts!(pi, two_pi, frac_pi_2, frac_pi_3, frac_pi_4, frac_pi_6, frac_pi_8, frac_1_pi, frac_2_pi, frac_2_sqrt_pi, e, log2_e, log10_e, ln_2, ln_10);
+    macro_rules! un { ($($n:ident),*) => { match op { $(concat!("cf_", stringify!($n)) => { CF::$n(a[0].clone()).wr(o); return out; })* _ => {} } }; }
+    un!(real, imaginary, modulus, modulus_squared, argument, norm1, abs, recip, conjugate, sin, cos, tan, asin, acos, atan, sinh, cosh, tanh, asinh, acosh,
+        atanh, log2, log10, ln, ln_1p, sqrt, exp, exp2, exp_m1, cbrt);
+    macro_rules! bin { ($($n:ident),*) => { match op { $(concat!("cf_", stringify!($n)) => { CF::$n(a[0].clone(), a[1].clone()).wr(o); return out; })* _ => {} } }; }
+    bin!(scale, unscale, hypot, log, powf, powc);
+    match op {
+        "cf_from_real" => <D as CF>::from_real(a[0].clone()).wr(o),
+        "cf_mul_add" => CF::mul_add(a[0].clone(), a[1].clone(), a[2].clone()).wr(o),
+        "cf_sin_cos" => { let (s, c) = CF::sin_cos(a[0].clone()); s.wr(o); c.wr(o) }
+        "cf_powi" => CF::powi(a[0].clone(), aux[0].parse::<i32>().unwrap()).wr(o),
+        "rf_copysign" => RF::copysign(a[0].clone(), a[1].clone()).wr(o),
+        "rf_atan2" => RF::atan2(a[0].clone(), a[1].clone()).wr(o),
+        "rf_max" => RF::max(a[0].clone(), a[1].clone()).wr(o),
+        "rf_min" => RF::min(a[0].clone(), a[1].clone()).wr(o),
+        "rf_clamp" => RF::clamp(a[0].clone(), a[1].clone(), a[2].clone()).wr(o),
+        "rf_is_sign_positive" => wb(RF::is_sign_positive(&a[0]), o),
+        "rf_is_sign_negative" => wb(RF::is_sign_negative(&a[0]), o),
+        // single-lane SIMD view
+        "simd_splat_extract" => { use nalgebra::SimdValue; <D as SimdValue>::splat(a[0].clone()).extract(0).wr(o) }
+        "simd_replace_extract" => { use nalgebra::SimdValue; let mut z = a[0].clone(); z.replace(0, a[1].clone()); z.extract(0).wr(o) }
+        "simd_select_true" => { use nalgebra::SimdValue; a[0].clone().select(true, a[1].clone()).wr(o) }
+        "simd_select_false" => { use nalgebra::SimdValue; a[0].clone().select(false, a[1].clone()).wr(o) }
+        "simd_lanes" => { use nalgebra::SimdValue; o.push(format!("i{}", <D as SimdValue>::LANES)) }
+        _ => panic!("unknown field op {op}"),
+    }
+    out
+}
+
+fn dispatch_field(ty: &str, op: &str, aux: &[&str], operands: &[Vec<&str>]) -> Vec<String> {
+    match ty {
+        "f64" => field_ops::<f64>(op, aux, operands),
+        "f32" => field_ops::<f32>(op, aux, operands),
+        "Dual64" => field_ops::<Dual64>(op, aux, operands),
+        "Dual32" => field_ops::<Dual32>(op, aux, operands),
+        "Dual2_64" => field_ops::<Dual2_64>(op, aux, operands),
+        "DualSVec64_2" => field_ops::<DualSVec64<2>>(op, aux, operands),
+        "DualDVec64" => field_ops::<DualDVec64>(op, aux, operands),
+        "Dual2SVec64_2" => field_ops::<Dual2SVec64<2>>(op, aux, operands),
+        "Dual2DVec64" => field_ops::<Dual2DVec64>(op, aux, operands),
+        _ => panic!("field: unknown type {ty}"),
+    }
+}
+
 /// simba subset / superset conversions between dual numbers over different float widths
 fn conv_pair<A, B>(op: &str, operands: &[Vec<&str>]) -> Vec<String>
 where
@@ -656,6 +710,8 @@ fn main() {
         let res = std::panic::catch_unwind(|| {
             if head[1] == "serde" {
                 dispatch_serde(head[2], &operands)
+            } else if head[1] == "field" {
+                dispatch_field(head[2], head[3], &head[4..], &operands)
             } else if head[1] == "conv" && (head[2] == "f32" || head[2] == "f64") {
                 dispatch_conv_float(head[2], head[3], head[4], &operands)
             } else if head[1] == "conv" {
